@@ -514,6 +514,16 @@ def run(tier, seed):
     chk = core.Check(PID, tier, seed)
     sh = core.parallel(shard_fn, seed=seed, tier=tier, exe=bdir + "/jcdrv", nhist=24000 if tier == "quick" else 200000)
     chk.absorb(sh)
+    if tier == "thorough":
+        import random as _r
+        pdir = build.build("plain")
+        rng = _r.Random("%d/mc" % seed)
+        cases = []
+        for i in range(400):
+            cmds, _e = gen_history(rng, 100)
+            cases.append(("mc%d" % i, cmds))
+        chk.absorb(core.run_memcheck(pdir + "/jcdrv", cases, PID))
+        chk.extra["memcheck"] = "valgrind memcheck over 400 histories on the uninstrumented build"
     chk.rule = ("histories of 30-300 API calls over a pool of 24 handles generated ONLINE against an ownership model (owner multisets: external handles + container slots; no cycles; the caller owns what it "
                 "transfers): constructors, get, put, object add/replace/delete, array add/put_idx/insert_idx/del_idx, set_userdata/set_serializer replacing a callback, deep copy with a tracking shallow-copy "
                 "function, deliberately failing calls (self-add, SIZE_MAX index); shared sub-trees (DAGs) included. After every call: put's return value, the set of destruction callbacks (uids) and, on probes, "
